@@ -175,7 +175,7 @@ Definition site_justification : list jentry := [
   J "_compressed/compressed.py" "GCXS._2d_transpose" 0 KGcxs ARaw FDefault FDefault
     (Justified SharesArraysOfWf "same arrays, shape reversed, compressed axis flipped");
   J "_compressed/compressed.py" "GCXS._reduce_return" 0 KGcxs ARaw FDefault FDefault
-    (JustifiedBy "C03.gcxs_reduce_den_partial" "the GCXS reduction returns a canonical, pruned result (rres_wf) for every axis argument inside its clauses gcxs_axes_nonempty / gcxs_axes_distinct");
+    (JustifiedBy "C03.gcxs_reduce_den" "the GCXS reduction returns a canonical, pruned result (rres_wf) for every axis argument");
   J "_compressed/compressed.py" "GCXS.change_compressed_axes" 0 KGcxs AMaybeRaw FDefault FDefault
     (JustifiedBy "C05.change_axes_wf" "arrays computed by _transpose: gcxs_wfb of the result, and (C05.change_axes_fits) indices, row numbers and indptr fit the dtype bound max(new compressed extents, nnz) extracted into Gen/S_convert.v");
   J "_compressed/compressed.py" "GCXS.from_coo" 0 KGcxs AMaybeRaw FDefault FDefault
@@ -194,7 +194,7 @@ Definition site_justification : list jentry := [
   J "_compressed/convert.py" "_resize" 1 KGcxs ARaw FDefault FDefault
     (Unjustified "1-d GCXS from linearised coordinates (model of C08; judged at run time)");
   J "_compressed/indexing.py" "getitem" 0 KGcxs AMaybeRaw FDefault FDefault
-    (Refuted "gcxs_getitem_newaxis_with_int_malformed");
+    (Unjustified "GCXS indexing kernels (model of C02; judged at run time).  The former finding gcxs_getitem_newaxis_with_int_malformed (2-d result with indptr = None) can no longer be returned: GCXS.__init__ now rejects an indptr whose length is not rows + 1 (the key raises instead)");
   (* ---- _coo/common.py *)
   J "_coo/common.py" "concatenate" 1 KCoo ARaw (FExpr "axis == 0") FFalse
     (Justified FromSortedOffsetConcat "coords of block i offset by the extents of blocks < i along `axis`; sorted exactly when axis = 0; blocks have disjoint coordinate ranges along `axis` for every axis");
